@@ -178,8 +178,44 @@ Theorem C02_extracted_guards :
   bin_op_folds_only_on_ok = true /\ un_op_folds_only_on_some = true /\ not_not_needs_definitely_bool = true /\
   index_folds_only_on_ok = true /\ pure_infallible_value_list_not_typeis = true /\ inline_arg_guard = true /\
   inline_rejects_args_kwargs = true /\ spec_exec_needs_marking = true /\ stmt_expr_drops_only_pure_infallible = true /\
-  for_stmt_uses_is_iterable_empty = true /\ expr_ident_needs_at_most_once = true.
+  for_stmt_uses_is_iterable_empty = true /\ expr_ident_needs_at_most_once = true /\
+  to_bool_dict_only_empty = true /\ to_bool_display_needs_pure_elems = true.
 Proof. repeat split; reflexivity. Qed.
+
+(* the restriction of is_pure_infallible_to_bool's dict arm to the EMPTY display is necessary.  With the arm written like the
+   list/tuple arm (entries pure and infallible => truth = "has entries"), `{[]: 1}` and `{"a": 1, "a": 2}` get the truth value
+   true although building them fails; the conditional / `or` folded from that prediction runs the branch (emit 1) where the
+   program as written fails before any effect.  The code's arm predicts nothing for these displays, and the general theorem
+   C02_pure_infallible_to_bool_sound (for every dict_check) covers what it does predict. *)
+Example C02_dict_to_bool_guard_necessary :
+  let unhashable := Dict [List []; Value (VInt 1)] in
+  let repeated := Dict [Value (VStr "a"); Value (VInt 1); Value (VStr "a"); Value (VInt 2)] in
+  (* the entries are pure and infallible; the code predicts nothing; the variant predicts `true` *)
+  all_pure_infallible [List []; Value (VInt 1)] = true /\
+  is_pure_infallible_to_bool unhashable = None /\ is_pure_infallible_to_bool repeated = None /\
+  is_pure_infallible unhashable = false /\ is_pure_infallible repeated = false /\
+  to_bool_dict_by_entries unhashable = Some true /\ to_bool_dict_by_entries repeated = Some true /\
+  (* building the dict fails, with no effect *)
+  eval1 no_defs [] 5 [] unhashable [] = Err "Value of type `list` is not hashable" [] /\
+  eval1 no_defs [] 5 [] repeated [] = Err "Dictionary key repeated" [] /\
+  (* so the prediction is unsound ... *)
+  ~ (forall e b, to_bool_dict_by_entries e = Some b -> forall w, exists v, eval1 no_defs [] 5 [] e w = Ok v w) /\
+  (* ... and the folded conditional / `or` behave differently from the program as written: the branch runs *)
+  if_expr_with to_bool_dict_by_entries unhashable (emit (Value (VInt 1))) (emit (Value (VInt 2))) = emit (Value (VInt 1)) /\
+  eval1 no_defs [] 5 [] (If unhashable (emit (Value (VInt 1))) (emit (Value (VInt 2)))) [] = Err "Value of type `list` is not hashable" [] /\
+  eval1 no_defs [] 5 [] (emit (Value (VInt 1))) [] = Ok VNone [VInt 1] /\
+  logical_bin_op_with to_bool_dict_by_entries And repeated (emit (Value (VInt 1))) = emit (Value (VInt 1)) /\
+  eval1 no_defs [] 5 [] (LogicalBinOp And repeated (emit (Value (VInt 1)))) [] = Err "Dictionary key repeated" [] /\
+  (* with the code's predictor the same constructors leave both programs alone, and a well-formed display keeps working *)
+  if_expr unhashable (emit (Value (VInt 1))) (emit (Value (VInt 2))) = If unhashable (emit (Value (VInt 1))) (emit (Value (VInt 2))) /\
+  logical_bin_op And repeated (emit (Value (VInt 1))) = LogicalBinOp And repeated (emit (Value (VInt 1))) /\
+  if_expr_with is_pure_infallible_to_bool (Dict []) (Value (VInt 1)) (Value (VInt 2)) = Value (VInt 2) /\
+  eval1 no_defs [] 5 [] (Dict [Value (VStr "a"); Value (VInt 1); Value (VStr "b"); List []]) []
+    = Ok (VDict [VStr "a"; VInt 1; VStr "b"; VList []]) [].
+Proof.
+  vm_compute. repeat split; try reflexivity.
+  intro H. destruct (H (Dict [List []; Value (VInt 1)]) true eq_refl []) as [v Hv]. vm_compute in Hv. discriminate.
+Qed.
 
 (* the string guard of is_iterable_empty is necessary: without it a `for` over the constant empty string is removed
    although executing it fails (strings are not iterable) - this was a defect of the code, since repaired *)
